@@ -8,6 +8,64 @@ theorem QI.weaken {k : Core} (h : QI k none) (s : Option Nat) : QI k s :=
 theorem QI.allQ {k : Core} (h : QI k none) (c : Nat) (hc : c < k.w.cmds.length) (hal : (k.w.cmd c).alive = true) :
     Qc k.execTasks k.w c := (h.q c hc hal).elim id (fun ⟨_, he, _⟩ => by cases he)
 
+theorem QI.popSpawn {k : Core} (hk : QI k none) (t : ExecTask) (rest : List ExecTask) (hsp : k.w.execSpawn = t :: rest) :
+    QI { k with w := { k.w with execSpawn := rest }, execTasks := (k.execTasks.insert t).2 } (some (k.execTasks.insert t).1) := by
+  have ht : execHF t = true := hk.sh t (by rw [hsp]; simp)
+  have hself := Slab.get_insert_self k.execTasks t hk.wf
+  have hold : ∀ e x, hostedBy k.execTasks x e → hostedBy (k.execTasks.insert t).2 x e := by
+    intro e x hx
+    unfold hostedBy at hx ⊢
+    have : (k.execTasks.insert t).1 ≠ e := Slab.insert_ne_occupied _ _ _ hk.wf (by rw [hx]; rfl)
+    rw [Slab.get_insert_other _ _ _ (Ne.symm this)]; exact hx
+  refine ⟨Slab.wf_insert _ _ hk.wf, fun c => ⟨(hk.hf c).t, (hk.hf c).s⟩, ?_, ?_, ?_, ?_, ?_, hk.flat⟩
+  · intro x hx
+    rcases Slab.mem_values_insert _ _ _ hx with rfl | hx
+    · exact ht
+    · exact hk.th x hx
+  · intro x hx
+    exact hk.sh x (by rw [hsp]; simp [hx])
+  · intro e x hx
+    show x < k.w.cmds.length
+    by_cases ee : e = (k.execTasks.insert t).1
+    · subst ee
+      unfold hostedBy at hx
+      rw [hself] at hx
+      cases hx
+      exact hk.spawnIn x (by rw [hsp]; simp)
+    · unfold hostedBy at hx
+      rw [Slab.get_insert_other _ _ _ ee] at hx
+      exact hk.host e x hx
+  · intro x hx
+    exact hk.spawnIn x (by rw [hsp]; simp [show ExecTask.cmd x ∈ rest from hx])
+  · intro c hc hal
+    have q := hk.allQ c hc hal
+    by_cases hcs : t = .cmd c
+    · exact Or.inr ⟨_, rfl, by unfold hostedBy; rw [hself, hcs]⟩
+    · refine Or.inl (q.transport rfl rfl ?_ (fun e => hold e c))
+      rintro (⟨e, he, hr'⟩ | h')
+      · exact Or.inl ⟨e, hold e c he, hr'⟩
+      · rw [hsp] at h'
+        simp only [List.mem_cons] at h'
+        rcases h' with h' | h'
+        · exact absurd h'.symm hcs
+        · exact Or.inr h'
+
+theorem QI.popReady {k : Core} (hk : QI k none) (etid : Nat) (rest : List Nat) (hrd : k.w.execReady = etid :: rest) :
+    QI { k with w := { k.w with execReady := rest } } (some etid) := by
+  refine ⟨hk.wf, fun c => ⟨(hk.hf c).t, (hk.hf c).s⟩, hk.th, hk.sh, hk.host, hk.spawnIn, ?_, hk.flat⟩
+  intro c hc hal
+  have q := hk.allQ c hc hal
+  by_cases hh : hostedBy k.execTasks c etid
+  · exact Or.inr ⟨etid, rfl, hh⟩
+  · refine Or.inl (q.transport rfl rfl ?_ (fun _ h => h))
+    rintro (⟨e, he, hr'⟩ | h')
+    · rw [hrd] at hr'
+      simp only [List.mem_cons] at hr'
+      rcases hr' with rfl | hr'
+      · exact absurd he hh
+      · exact Or.inl ⟨e, he, hr'⟩
+    · exact Or.inr h'
+
 theorem execDrainSpawn_q : ∀ (f : Nat) (k : Core) (d : Bool) (k' : Core) (d' : Bool),
     execDrainSpawn f k d = some (k', d') → QI k none → QI k' none := by
   intro f
@@ -23,46 +81,7 @@ theorem execDrainSpawn_q : ∀ (f : Nat) (k : Core) (d : Bool) (k' : Core) (d' :
       split at h
       · cases h
       · rename_i st k1 hr
-        refine ih k1 true k' d' h (execRunTask_q _ _ _ _ hr ?_)
-        have ht : execHF t = true := hk.sh t (by rw [hsp]; simp)
-        have hself := Slab.get_insert_self k.execTasks t hk.wf
-        have hold : ∀ e x, hostedBy k.execTasks x e → hostedBy (k.execTasks.insert t).2 x e := by
-          intro e x hx
-          unfold hostedBy at hx ⊢
-          have : (k.execTasks.insert t).1 ≠ e := Slab.insert_ne_occupied _ _ _ hk.wf (by rw [hx]; rfl)
-          rw [Slab.get_insert_other _ _ _ (Ne.symm this)]; exact hx
-        refine ⟨Slab.wf_insert _ _ hk.wf, fun c => ⟨(hk.hf c).t, (hk.hf c).s⟩, ?_, ?_, ?_, ?_, ?_, hk.flat⟩
-        · intro x hx
-          rcases Slab.mem_values_insert _ _ _ hx with rfl | hx
-          · exact ht
-          · exact hk.th x hx
-        · intro x hx
-          exact hk.sh x (by rw [hsp]; simp [hx])
-        · intro e x hx
-          show x < k.w.cmds.length
-          by_cases ee : e = (k.execTasks.insert t).1
-          · subst ee
-            unfold hostedBy at hx
-            rw [hself] at hx
-            cases hx
-            exact hk.spawnIn x (by rw [hsp]; simp)
-          · unfold hostedBy at hx
-            rw [Slab.get_insert_other _ _ _ ee] at hx
-            exact hk.host e x hx
-        · intro x hx
-          exact hk.spawnIn x (by rw [hsp]; simp [show ExecTask.cmd x ∈ rest from hx])
-        · intro c hc hal
-          have q := hk.allQ c hc hal
-          by_cases hcs : t = .cmd c
-          · exact Or.inr ⟨_, rfl, by unfold hostedBy; rw [hself, hcs]⟩
-          · refine Or.inl (q.transport rfl rfl ?_ (fun e => hold e c))
-            rintro (⟨e, he, hr'⟩ | h')
-            · exact Or.inl ⟨e, hold e c he, hr'⟩
-            · rw [hsp] at h'
-              simp only [List.mem_cons] at h'
-              rcases h' with h' | h'
-              · exact absurd h'.symm hcs
-              · exact Or.inr h'
+        exact ih k1 true k' d' h (execRunTask_q _ _ _ _ hr (hk.popSpawn t rest hsp))
 
 theorem execDrainReady_q : ∀ (f : Nat) (k : Core) (d : Bool) (k' : Core) (d' : Bool),
     execDrainReady f k d = some (k', d') → QI k none → QI k' none := by
@@ -75,20 +94,7 @@ theorem execDrainReady_q : ∀ (f : Nat) (k : Core) (d : Bool) (k' : Core) (d' :
     split at h
     · simp only [Option.some.injEq, Prod.mk.injEq] at h; obtain ⟨rfl, _⟩ := h; exact hk
     · rename_i etid rest hrd
-      have k0 : QI { k with w := { k.w with execReady := rest } } (some etid) := by
-        refine ⟨hk.wf, fun c => ⟨(hk.hf c).t, (hk.hf c).s⟩, hk.th, hk.sh, hk.host, hk.spawnIn, ?_, hk.flat⟩
-        intro c hc hal
-        have q := hk.allQ c hc hal
-        by_cases hh : hostedBy k.execTasks c etid
-        · exact Or.inr ⟨etid, rfl, hh⟩
-        · refine Or.inl (q.transport rfl rfl ?_ (fun _ h => h))
-          rintro (⟨e, he, hr'⟩ | h')
-          · rw [hrd] at hr'
-            simp only [List.mem_cons] at hr'
-            rcases hr' with rfl | hr'
-            · exact absurd he hh
-            · exact Or.inl ⟨e, he, hr'⟩
-          · exact Or.inr h'
+      have k0 := hk.popReady etid rest hrd
       split at h
       · cases h
       · rename_i k1 hr
@@ -325,7 +331,7 @@ theorem QI.extend {k : Core} (hk : QI k none) (W : World) (newc : CmdSt) (L : Li
         rintro (⟨e, he, hr'⟩ | h')
         · exact Or.inl ⟨e, he, by rw [hr]; exact hr'⟩
         · exact Or.inr (by simp only [hs, List.mem_append]; exact Or.inl (Or.inl h'))
-      refine ⟨?_, ?_⟩
+      refine ⟨?_, ?_, ?_⟩
       · rcases q.a with s | ⟨e, hw, he⟩
         · exact Or.inl (sc s)
         · exact Or.inr ⟨e, by rw [hold c h]; exact hw, he⟩
@@ -334,10 +340,13 @@ theorem QI.extend {k : Core} (hk : QI k none) (W : World) (newc : CmdSt) (L : Li
         unfold Nw at hn
         rw [hold c h] at hn
         exact sc (q.b hna hn)
+      · rcases q.d with s | hd
+        · exact Or.inl (sc s)
+        · exact Or.inr (by unfold World.isDoneNow at hd ⊢; rw [hold c h]; exact hd)
     · have e : c = k.w.cmds.length := by omega
       subst e
       have sc : sched k.execTasks W k.w.cmds.length := Or.inr (by simp [hs])
-      exact ⟨Or.inl sc, fun _ _ => sc⟩
+      exact ⟨Or.inl sc, fun _ _ => sc, Or.inl sc⟩
 
 theorem update_q (ev : Ev) (k : Core) (hk : QI k none) : QI (update ev k) none := by
   unfold update
